@@ -300,6 +300,13 @@ func genC06(r *core.Rand, run int) *MuxScenario {
 		sp.Fault.Err = "ueof" // HTTP/1.1: a broken body reads as io.ErrUnexpectedEOF
 	}
 	addZeroMessages(r, &sp)
+	// a WebSocket handler with one goroutine per direction (what the pings
+	// among the client's frames make the receiving one write meets what the
+	// sending one writes on the same connection)
+	if tr.proto == "ws" && sp.Fault.Kind == "" && sp.WSClose == "normal" && len(sp.Msgs) >= 1 && len(sp.Handler.Resps) >= 1 && r.Chance(1, 3) {
+		sp.WSDuplex, sp.PingPong = true, false
+		sp.Handler.Steps = []HStep{{Op: "duplex"}}
+	}
 	// an Accept header, possibly asking for the other representation than the
 	// request's own (only where no error rendering is expected: how an error is
 	// rendered under an Accept header is C05's subject)
